@@ -57,7 +57,7 @@ func histChild() {
 	run := vk.Start("C08")
 	var a histArgs
 	vk.ChildArgs(&a)
-	srv, err := vsrv.Start(vsrv.Config{Root: os.Getenv("VERIF_CHILD_DIR"), LogToFile: true})
+	srv, err := vsrv.Start(vsrv.Config{Root: os.Getenv("VERIF_CHILD_DIR"), LogToFile: true, WritableGroups: true})
 	if err != nil {
 		run.Inconclusive("server start: " + err.Error())
 		os.Exit(0)
@@ -96,12 +96,16 @@ func histScenario(run *vk.Run, srv *vsrv.Server, batch uint64, s int) {
 		"wildcard-user": map[string]any{"password": map[string]any{"type": "wildcard"}, "permissions": "present"}})
 	var trail []string
 	note := func(x string) { trail = append(trail, x); run.Note(x) }
+	pw := map[string]string{} // the password each entry currently has
+	for _, u := range users {
+		pw[u.name] = "pw-" + u.name
+	}
 	login := func(id string, u user) (*vclient.Client, []string, bool) {
 		c, err := vclient.Dial(srv, id)
 		if err != nil {
 			return nil, nil, false
 		}
-		m, ok := c.Join(g, u.name, "pw-"+u.name)
+		m, ok := c.Join(g, u.name, pw[u.name])
 		if !ok || m.Str("kind") != "join" {
 			c.Close()
 			return nil, nil, false
@@ -149,7 +153,12 @@ func histScenario(run *vk.Run, srv *vsrv.Server, batch uint64, s int) {
 			return
 		}
 	}
-	for round := 0; round < 3; round++ {
+	replaced := 0
+	rounds := 3
+	if s%2 == 0 {
+		rounds = 4 // the last round only judges the last replacement
+	}
+	for round := 0; round < rounds; round++ {
 		for k := 0; k < 6+r.IntN(10) && len(ms) > 0; k++ {
 			t := ms[r.IntN(len(ms))]
 			kind := []string{"op", "unop", "present", "unpresent", "shutup", "unshutup"}[r.IntN(6)]
@@ -192,9 +201,47 @@ func histScenario(run *vk.Run, srv *vsrv.Server, batch uint64, s int) {
 			run.Count("history_fresh_logins_exact", 1)
 			c.Close()
 		}
+		// the administrator replaces one entry's password through the API by one of the same
+		// length (from the second time on the group file keeps its size: only its stamp tells
+		// the server, in whose memory the group is live, that it changed); the replaced password
+		// then opens nothing, the new one is judged by the next round's fresh logins
+		if s%2 == 0 && round < rounds-1 {
+			u := users[1+r.IntN(len(users)-1)]
+			old, fresh := pw[u.name], fmt.Sprintf("p%d-%s", (round+int(batch))%10, u.name)
+			if fresh == old {
+				fresh = "pz-" + u.name
+			}
+			time.Sleep(25 * time.Millisecond) // new inodes are stamped from the kernel's coarse clock
+			hdr := srv.AdminAuth()
+			hdr["Content-Type"] = "application/json"
+			st, _, _, err := srv.Do("PUT", "/galene-api/v0/.groups/"+g+"/.users/"+u.name+"/.password", hdr, []byte(fmt.Sprintf("%q", fresh)))
+			if err != nil || st/100 != 2 {
+				run.Count("history_password_replacements_not_accepted", 1)
+				continue
+			}
+			pw[u.name] = fresh
+			replaced++
+			note(fmt.Sprintf("the administrator replaces the password of %s by another one of the same length", u.name))
+			run.Count("history_passwords_replaced", 1)
+			run.Eval(1)
+			c, err := vclient.Dial(srv, fmt.Sprintf("h%d-%d-old%d", batch, s, round))
+			if err != nil {
+				continue
+			}
+			m, ok := c.Join(g, u.name, old)
+			c.Close()
+			if ok && m.Str("kind") == "join" {
+				run.Violation("history:replaced-password-accepted:same-length", fmt.Sprintf("after the administrator replaced the password of %s (same length, group live), a login with the replaced password was accepted", u.name),
+					map[string]any{"phase": "history", "batch": batch, "scenario": s, "trail": trail})
+				return
+			}
+			if ok {
+				run.Count("history_replaced_passwords_refused", 1)
+			}
+		}
 	}
 	run.Count("history_scenarios", 1)
-	run.Distinct(fmt.Sprintf("history rec%v unr%v members%d", rec, unr, len(ms)))
+	run.Distinct(fmt.Sprintf("history rec%v unr%v members%d replaced%d", rec, unr, len(ms), replaced))
 	_ = strings.Join
 }
 
@@ -227,4 +274,5 @@ func historyTier(run *vk.Run) {
 	wg.Wait()
 	run.FloorCounter("history_fresh_logins_exact", int64(batches*scen*9))
 	run.FloorCounter("history_moderation_actions", int64(batches*scen*10))
+	run.FloorCounter("history_replaced_passwords_refused", int64(batches))
 }
